@@ -614,6 +614,9 @@ class C09(Property):
                 if bad <= 2 or do not in ("500", "panic"):
                     toks.append("do=" + do)
             rq[-1] = "+".join(toks)
+        # what a handler does to the map it was given must not show in a later request for the same path
+        for rq in [rq for rq in reqs if "scrib" in rq[-1].split("+")]:
+            reqs.append(rq[:-1] + [""])
         if nregs is not None and nregs > 0 and rng.random() < 0.35:
             # groups = single requests or whole concurrent batches
             groups, prev = [], None
